@@ -89,6 +89,26 @@ PROPS["C14"] = {
     "level_note": "Bounds: <= 4 words; trusted: Kani/CBMC/CaDiCaL.",
 }
 
+PROPS["C13"] = {
+    "engine": "kani", "module": "c13", "feature": "c13", "jobs": 8,
+    "functions": ["AtomicBitFieldVec::{set_atomic,set_atomic_unchecked,get_atomic}", "AtomicBitVec::{set,swap,get}",
+                  "sux::verif::sched_point (hook H1)"],
+    "bounds": "two backing words, widths 1..=64 (in-word) and 2..=63 (straddling), initial contents, index, value and interference "
+              "symbolic; at most 2 interferences per call (3 in thorough), each overwriting every bit outside the analysed element",
+    "outside": "lock-freedom under unbounded interference; memory-ordering effects (contents are observed after join); writers of the "
+               "same straddling element (documented as unsupported); reset_atomic/fill/flip take &mut self (no concurrency); "
+               "EliasFanoConcurrentBuilder equivalence is the permutation harness of C03",
+    "assumptions": ["single-word atomicity of load / compare_exchange / fetch_or / fetch_and (hardware / std atomics)",
+                    "rely-guarantee argument: between two atomic operations of one thread, writers of distinct elements can only change "
+                    "bits outside its element; each successful atomic write is checked to change only bits inside it"],
+    "level_text": "Rely-guarantee step check over the real atomic methods: interleavings with any number of writers of other elements "
+                  "are over-approximated by a nondeterministic interference function plugged into the scheduling hook; the solver "
+                  "decides every initial content, index, value, width and interference inside the bounds.",
+    "level_note": "Bounds: 2 words, <= 2 (3) interferences per call; trusted: Kani/CBMC/CaDiCaL, atomicity of single-word operations, "
+                  "the rely-guarantee composition argument (DESIGN.md §2 C13).",
+    "technique": "bounded model checking (Kani/CBMC) of the real atomic methods under a symbolic interference model through the sux_verif scheduling hook",
+}
+
 # Properties not (yet) claimed, with the reason. Entries for properties that
 # gain a check are ignored by tools/gen_manifest.py.
 NOT_APPLICABLE = {
@@ -101,7 +121,6 @@ NOT_APPLICABLE = {
     "C09": "check not built yet in this revision (planned, partial: DESIGN.md §2 C09)",
     "C11": "check not built yet in this revision (planned, partial: DESIGN.md §2 C11)",
     "C12": "check not built yet in this revision (planned: DESIGN.md §2 C12)",
-    "C13": "check not built yet in this revision (planned: DESIGN.md §2 C13)",
     "C15": "mmap/load_full are file I/O and an FFI mmap call; epserde's in-memory (de)serialisation hashes type names and walks a generic reader/writer stack of a dependency: heap- and loop-heavy, beyond a bounded encoding; measured obstacles in DESIGN.md §2 C15",
     "C16": "check not built yet in this revision (planned: DESIGN.md §2 C16, engine E2)",
     "C17": "same entry points and obstacles as C07 (threads, per-key hashing, file-backed stores); build_loop is a private generic method whose retry logic cannot be driven without rewriting the builder",
